@@ -103,3 +103,23 @@ def type_hist(chk, fcp, t, depth=0, off=None):
     if type(t) is T.StructType:
         for f in fcp.get_struct(t.name).unwrap().fields:
             type_hist(chk, fcp, f.type, depth + 1)
+
+
+def run_serde_cases(chk, cases, broken):
+    """The cases against the hand-written model (Corr.Serde.check_case) and, when the translation of serde.py builds, against the
+    translated source run inside Coq as well (Corr.SerdeGen.check_case_gen).  Returns (indices where the model disagrees with the
+    implementation, indices where only the translated source disagrees, broken)."""
+    mism, translated = [], []
+    try:
+        if broken is None and chk.corr_buildable(["Corr/SerdeGen.vo"]):
+            both = common.run_cases("SerdeGen", cases, check="check_case_gen")
+            chk.coverage["cases_also_run_on_the_translated_source"] = len(cases)
+            if both:
+                again = common.run_cases("Serde", [cases[i] for i in both])
+                mism = [both[j] for j in again]
+                translated = [i for i in both if i not in set(mism)]
+        elif broken is None or chk.corr_buildable(["Corr/Serde.vo"]):
+            mism = common.run_cases("Serde", cases)
+    except common.CoqError as e:
+        broken = f"correspondence could not be evaluated: {e}"
+    return mism, translated, broken
